@@ -96,7 +96,35 @@ pub fn reproduces(case: &AnyCase, key: &str) -> bool {
 pub fn minimise(found: &Found, run_index: u64, budget: usize) -> Minimised {
     let key = key_of(&found.violation);
     let original_size = case_size(&found.case);
-    let (case, execs) = shrink::shrink(found.case.clone(), |c| c.candidates(), |c| reproduces(c, &key), |c| serde_json::to_string(c).unwrap_or_default(), budget);
+    // Besides the number of candidates, minimisation is bounded by the simulated
+    // work it does (steps + bytes of the candidates), so that a case whose every
+    // execution is expensive cannot stall a worker. Deterministic, no clock.
+    let mut work: u64 = 0;
+    let mut tries: u64 = 0;
+    let (case, execs) = shrink::shrink(
+        found.case.clone(),
+        |c| c.candidates(),
+        |c| {
+            if work > 40_000_000 {
+                return false;
+            }
+            tries += 1;
+            if tries % 16 == 0 {
+                // heartbeat for the parent's hang backstop
+                let mut o = std::io::stdout().lock();
+                let _ = writeln!(o, "H");
+                let _ = o.flush();
+            }
+            let mut mon = Mon::new(false);
+            c.check(&mut mon);
+            // an error position on a slice costs a rescan of the input, so weigh steps by the text length
+            let w = c.weight();
+            work += mon.steps * (1 + w / 64) + mon.evaluations * w;
+            mon.violations.iter().any(|v| key_of(v) == key)
+        },
+        |c| serde_json::to_string(c).unwrap_or_default(),
+        budget,
+    );
     // detail of the minimised case
     let mut mon = Mon::new(false);
     case.check(&mut mon);
@@ -185,6 +213,11 @@ pub fn run_range(
             let e = agg.seen.entry(k.clone()).or_insert((0, u64::MAX));
             e.0 += 1;
             e.1 = e.1.min(i);
+            // only this check's own property is minimised and reported; what the
+            // monitors see for other properties is counted above and left to their checks
+            if f.violation.property != prop {
+                continue;
+            }
             // keep the smallest case per key from the earliest run
             match per_key_min.get(&k) {
                 Some((ix, old)) if *ix < i || (*ix == i && case_size(&old.case) <= case_size(&f.case)) => {}
@@ -202,9 +235,14 @@ pub fn run_range(
         if already_minimised.contains(&k) {
             continue;
         }
-        if shrink_here && already_minimised.len() < 24 {
-            already_minimised.insert(k);
-            agg.minimised.push(minimise(&f, ix, 1500));
+        if shrink_here && already_minimised.len() < 12 {
+            already_minimised.insert(k.clone());
+            let t_min = Instant::now();
+            let m = minimise(&f, ix, 800);
+            if slow_ms.is_some() {
+                eprintln!("minimised {} in {} ms ({} execs)", k, t_min.elapsed().as_millis(), m.shrink_execs);
+            }
+            agg.minimised.push(m);
         } else if !shrink_here {
             let original_size = case_size(&f.case);
             agg.minimised.push(Minimised {
@@ -230,6 +268,8 @@ enum Msg {
     /// A finished segment and the index the worker continues from.
     Result(usize, Box<Agg>, u64),
     Done(usize),
+    /// The worker is busy minimising; not stuck.
+    Heartbeat(usize),
     /// The worker's stdout reached end of file: it has exited or is about to.
     Closed(usize),
 }
@@ -280,6 +320,8 @@ fn spawn_worker(exe: &Path, prop: &str, tier: Tier, seed: u64, start: u64, end: 
                 }
             } else if line == "D" {
                 let _ = tx.send(Msg::Done(slot));
+            } else if line == "H" {
+                let _ = tx.send(Msg::Heartbeat(slot));
             }
         }
         let _ = tx.send(Msg::Closed(slot));
@@ -324,6 +366,7 @@ pub fn run_batch(exe: &Path, prop: &str, tier: Tier, seed: u64, count: u64, work
                 slots[s].last_progress = Instant::now();
             }
             Ok(Msg::Done(s)) => slots[s].got_result = true,
+            Ok(Msg::Heartbeat(s)) => slots[s].last_progress = Instant::now(),
             Ok(Msg::Closed(s)) => closed = Some(s),
             Err(mpsc::RecvTimeoutError::Timeout) => {
                 // hang backstop: the only place wall time is consulted
